@@ -134,7 +134,20 @@ func VH10a_close() {
 		c.g = verif.Go(name, func() { c.msg, c.err = f() })
 		calls = append(calls, c)
 	}
-	what := verif.Choice("parked", 6)
+	what := verif.Choice("parked", 7)
+	if what == 6 {
+		// a sender parked first and then a receiver on the SAME object (a REQ Send waiting for a peer and a Recv
+		// waiting for that request's reply; several waiters of one object must all be woken by Close)
+		park("send-first", func() (*mangos.Message, error) { return nil, sock.SendMsg(newMsg(proto)) })
+		verif.Quiesce()
+		park("recv-second", func() (*mangos.Message, error) { return sock.RecvMsg() })
+		if cerr == nil {
+			park("ctx-send-first", func() (*mangos.Message, error) { return nil, ctx.SendMsg(newMsg(proto)) })
+			verif.Quiesce()
+			park("ctx-recv-second", func() (*mangos.Message, error) { return ctx.RecvMsg() })
+		}
+		verif.Reach("sender-then-receiver")
+	}
 	var optCalls []*call
 	if what == 5 {
 		// option calls in flight (they normally return at once): a queue resize and a cancelled subscription
